@@ -14,8 +14,13 @@ CFG = dict(
               "aabb_intersects_iff", "aabb_expand_minmax", "aabb_expand_contains", "aabb_volume", "aabb_closestPoint_minimises",
               # Props/C17FromPoints.lean (round 2): about the REGENERATED Gen.geometry.NewAABBFromPoints
               "aabb_newFromPoints_fold", "aabb_newFromPoints_min", "aabb_newFromPoints_max", "aabb_newFromPoints_eq_model",
-              "aabb_newFromPoints_contains_all", "aabb_newFromPoints_tight", "aabb_newFromPoints_least"],
-    modules=["PolyVerif.Props.C17", "PolyVerif.Props.C17More", "PolyVerif.Props.C17FromPoints"],
+              "aabb_newFromPoints_contains_all", "aabb_newFromPoints_tight", "aabb_newFromPoints_least",
+              # Props/C17Mesh.lean (round 2): the literal-loop model of the mesh-level transforms (Model/C17Mesh.lean), any scalar
+              "PolyVerif.C17Mesh.mapLoop_eq_mapIdx", "PolyVerif.C17Mesh.mapLoop_eq_map", "PolyVerif.C17Mesh.rotateArray_eq_map", "PolyVerif.C17Mesh.transformArray_eq_map", "PolyVerif.C17Mesh.setFloat3Attribute_spec",
+              "PolyVerif.C17Mesh.modifyFloat3Attribute_spec", "PolyVerif.C17Mesh.mesh_rotate_pointwise", "PolyVerif.C17Mesh.mesh_rotateAttr_pointwise", "PolyVerif.C17Mesh.mesh_translate_pointwise",
+              "PolyVerif.C17Mesh.mesh_translateAttr_pointwise", "PolyVerif.C17Mesh.mesh_scale_pointwise", "PolyVerif.C17Mesh.mesh_scaleAttr_pointwise", "PolyVerif.C17Mesh.mesh_applyTRS_pointwise",
+              "PolyVerif.C17Mesh.movesPointwise_get", "PolyVerif.C17Mesh.mesh_rotate_preserves_length", "PolyVerif.C17Mesh.mesh_applyTRS_is_RST"],
+    modules=["PolyVerif.Props.C17", "PolyVerif.Props.C17More", "PolyVerif.Props.C17FromPoints", "PolyVerif.Props.C17Mesh"],
     streams=[dict(name="c17", n=dict(quick=300, thorough=20000),
                   ulps={"c17.quat.fromtheta": (8, 1e-15), "c17.quat.rotationto": (8, 1e-15)})],
     trusted=T_COMMON + ["sin/cos: Go math.Sin/Cos vs libm compared within 8 ulps (only FromTheta uses them)"],
